@@ -156,13 +156,34 @@ func (f *fixture) request(r string, lastEnc *pb.DataRowRecord, rng *rand.Rand) *
 		}
 		return dec(d)
 	case "dec-empty":
-		switch rng.Intn(3) {
+		// an empty or PARTIAL record: every optional sub-message of the protobuf may be missing on its own
+		switch rng.Intn(8) {
 		case 0:
 			return dec(nil)
 		case 1:
 			return dec(&pb.DataRowRecord{})
-		default:
+		case 2:
 			return &pb.SessionRequest{Request: &pb.SessionRequest_Decrypt{}}
+		case 3: // key without parent key meta
+			d := cloneDRR(f.own)
+			d.Key.ParentKeyMeta = nil
+			return dec(d)
+		case 4: // data without key
+			d := cloneDRR(f.own)
+			d.Key = nil
+			return dec(d)
+		case 5: // key without data
+			d := cloneDRR(f.own)
+			d.Data = nil
+			return dec(d)
+		case 6: // parent key meta without key id
+			d := cloneDRR(f.own)
+			d.Key.ParentKeyMeta = &pb.KeyMeta{Created: d.Key.ParentKeyMeta.GetCreated()}
+			return dec(d)
+		default: // key bytes missing
+			d := cloneDRR(f.own)
+			d.Key.Key = nil
+			return dec(d)
 		}
 	case "empty":
 		return &pb.SessionRequest{}
